@@ -130,7 +130,7 @@ class RainbowDQN(RLAlgorithm):
         ), "Minimum priority for sampling must be a float."
         assert prior_eps > 0, "Minimum priority for sampling must be greater than zero."
         assert isinstance(num_atoms, int), "Number of atoms must be an integer."
-        assert num_atoms >= 1, "Number of atoms must be greater than or equal to one."
+        assert num_atoms >= 2, "Number of atoms must be greater than or equal to two."
         assert isinstance(
             v_min, (float, int)
         ), "Minimum value of support must be a float."
@@ -138,8 +138,8 @@ class RainbowDQN(RLAlgorithm):
             v_max, (float, int)
         ), "Maximum value of support must be a float."
         assert (
-            v_max >= v_min
-        ), "Maximum value of support must be greater than or equal to minimum value."
+            v_max > v_min
+        ), "Maximum value of support must be greater than minimum value."
         assert isinstance(n_step, int), "Step number must be an integer."
         assert n_step >= 1, "Step number must be greater than or equal to one."
         assert isinstance(
